@@ -127,7 +127,8 @@ WireAtoms(om, fam) ==
 Inner(call) == IF call.m = "hook" THEN call.inner ELSE call.m
 AtomProps(atom, m) ==
   (CASE atom = "c.stopped" -> {"C10"}
-     [] atom \in {"c.admin", "c.pending", "c.minTime"} -> {"C12"}
+     [] atom \in {"c.admin", "c.pending", "c.minTime"} ->
+          {"C12"} \cup R(m \in {"transfer_ownership", "revoke_ownership_transfer", "accept_ownership"}, "C08")
      [] atom = "c.N" -> {"C01"} \cup R(m = "receive_rewards", "C11") \cup R(m \in {"liquid_stake", "submit_batch"}, "C04")
      [] atom = "c.L" -> {"C03"} \cup R(m \in {"liquid_stake", "submit_batch"}, "C04")
      [] atom = "c.fees" -> {"C11"} \cup (IF m = "liquid_stake" THEN {"C01", "C02"} ELSE {})
